@@ -151,3 +151,120 @@ Example unlocked_stop_panics :
     /\ nth_error (ls c) 0 = Some L
     /\ panics (set_l c 0 (mkL (l_cancel L) true WDone (l_reg L) (l_rcv L) (l_sawclose L) (l_log L))) = true.
 Proof. eexists. eexists. split; [reflexivity|]. split; reflexivity. Qed.
+
+(* ---------- 2. cancel closes: the measure mu ---------- *)
+Definition rcount (k : nat) (l : list sender) : nat := List.length (filter (fun s => sel_on k (s_pc s)) l).
+
+Lemma readers_rcount : forall k c, readers k c = rcount k (ss c).
+Proof. reflexivity. Qed.
+
+Lemma rcount_le : forall k l, rcount k l <= List.length l.
+Proof. intros. unfold rcount. induction l; simpl; auto. destruct (sel_on k (s_pc a)); simpl; lia. Qed.
+
+Lemma rcount_upd : forall k l s X X', nth_error l s = Some X ->
+  rcount k (upd l s X') + (if sel_on k (s_pc X) then 1 else 0) = rcount k l + (if sel_on k (s_pc X') then 1 else 0).
+Proof.
+  unfold rcount. induction l; intros s X X' H.
+  - destruct s; discriminate.
+  - destruct s; simpl in H.
+    + inversion H; subst. simpl. destruct (sel_on k (s_pc X)), (sel_on k (s_pc X')); simpl; lia.
+    + simpl. specialize (IHl s X X' H). destruct (sel_on k (s_pc a)); simpl; lia.
+Qed.
+
+Lemma rcount_zero : forall k c, no_readers k c = true -> rcount k (ss c) = 0.
+Proof.
+  unfold no_readers, rcount. intros k c. induction (ss c); simpl; auto.
+  intros H. apply andb_true_iff in H. destruct H as (H1 & H2).
+  destruct (sel_on k (s_pc a)); try discriminate. auto.
+Qed.
+
+Lemma rcount_pos : forall k l, rcount k l > 0 -> exists s X, nth_error l s = Some X /\ sel_on k (s_pc X) = true.
+Proof.
+  unfold rcount. induction l; simpl; intros H; try lia.
+  destruct (sel_on k (s_pc a)) eqn:E.
+  - exists 0, a. auto.
+  - destruct (IHl H) as (s & X & H1 & H2). exists (S s), X. auto.
+Qed.
+
+Lemma rcount_no : forall k c, rcount k (ss c) = 0 -> no_readers k c = true.
+Proof.
+  unfold no_readers, rcount. intros k c. induction (ss c); simpl; auto.
+  destruct (sel_on k (s_pc a)); simpl; intros; try discriminate. auto.
+Qed.
+
+Definition rank (w : wpc) (n r : nat) : nat :=
+  match w with WWait => 2 * n + 3 | WStop => 2 * n + 2 | WPending => 1 + r | WDone => 0 end.
+
+Lemma mu_rank : forall k c, mu k c = match nth_error (ls c) k with
+                                       | Some L => rank (l_w L) (List.length (ss c)) (rcount k (ss c))
+                                       | None => 0 end.
+Proof. intros. unfold mu. destruct (nth_error (ls c) k); auto. Qed.
+
+Lemma step_ss_length : forall c a c', step c a = Some c' -> List.length (ss c') = List.length (ss c).
+Proof.
+  intros c a c' H. destruct a; simpl in H; break_step H; simpl; rewrite ?upd_length; auto.
+Qed.
+
+Lemma sel_on_true : forall k p, sel_on k p = true -> exists o r g sn, p = SSel k o r g sn.
+Proof. destruct p; simpl; intros; try discriminate. apply Nat.eqb_eq in H. subst. eauto. Qed.
+
+Ltac same_k := repeat match goal with
+  | E1 : nth_error ?l ?k = Some ?a, E2 : nth_error ?l ?k = Some ?b |- _ =>
+      tryif constr_eq a b then fail else (assert (a = b) by congruence; subst a)
+  end.
+
+(* how the k-th listener changes in one step *)
+Lemma nth_ls_step : forall c a c' k K, step c a = Some c' -> nth_error (ls c) k = Some K ->
+  exists K', nth_error (ls c') k = Some K' /\
+    (l_w K' = l_w K \/ a = LWake k \/ a = LLockReq k \/ a = LStop k).
+Proof.
+  intros c a c' k K H HK. pose proof (nth_some_lt _ _ _ HK) as Hlt.
+  destruct a; simpl in H; break_step H; simpl; eauto;
+    try (rewrite nth_error_app1 by auto; eauto);
+    match goal with |- context [nth_error (upd (ls c) ?l ?x) k] =>
+      destruct (Nat.eq_dec l k) as [->|Hne];
+      [rewrite nth_upd_eq by auto; eexists; split; [reflexivity|]; simpl; same_k; auto
+      |rewrite nth_upd_neq by auto; eauto] end.
+Qed.
+
+Definition leaves (a : label) (s : nat) : Prop := a = LSelSendCtx s \/ a = LSelListenCtx s \/ a = LDeliver s.
+
+Lemma rcount_step : forall c a c' k, step c a = Some c' ->
+  rcount k (ss c') = rcount k (ss c)
+  \/ (exists s, a = LRLock s /\ rcount k (ss c') = rcount k (ss c) + 1 /\
+        forall K, nth_error (ls c) k = Some K -> l_w K <> WPending)
+  \/ (exists s X, leaves a s /\ nth_error (ss c) s = Some X /\ sel_on k (s_pc X) = true /\
+        rcount k (ss c') + 1 = rcount k (ss c)).
+Proof.
+  intros c a c' k H. unfold leaves.
+  destruct a; simpl in H; break_step H; simpl; auto;
+    match goal with
+    | E : nth_error (ss c) ?s = Some ?X |- context [rcount k (upd (ss c) ?s ?X')] =>
+        pose proof (rcount_upd k (ss c) s X X' E) as RU
+    end;
+    try match goal with E : s_pc _ = _ |- _ => rewrite E in RU end; simpl in RU.
+  - left. lia.
+  - destruct (Nat.eqb n k) eqn:El.
+    + apply Nat.eqb_eq in El. subst. right. left. exists s. split; auto. split; [lia|].
+      intros K HK. same_k. congruence.
+    + left. lia.
+  - destruct (Nat.eqb n k) eqn:El.
+    + apply Nat.eqb_eq in El. subst. right. left. exists s. split; auto. split; [lia|].
+      intros K HK. same_k. congruence.
+    + left. lia.
+  - destruct (Nat.eqb n k) eqn:El.
+    + apply Nat.eqb_eq in El. subst. right. left. exists s. split; auto. split; [lia|].
+      intros K HK. same_k. congruence.
+    + left. lia.
+  - destruct (Nat.eqb l k) eqn:El.
+    + right. right. exists s, s0. rewrite Heqs1. simpl. rewrite El. repeat split; auto. lia.
+    + left. lia.
+  - destruct (Nat.eqb l k) eqn:El.
+    + right. right. exists s, s0. rewrite Heqs1. simpl. rewrite El. repeat split; auto. lia.
+    + left. lia.
+  - destruct (Nat.eqb l k) eqn:El.
+    + right. right. exists s, s0. rewrite Heqs1. simpl. rewrite El. repeat split; auto. lia.
+    + left. lia.
+  - left. lia.
+  - left. destruct (sel_on k (s_pc s0)); lia.
+Qed.
